@@ -98,7 +98,7 @@ fn expected(aw: &[GAward], deposit: NaiveDate, sym: &str) -> Result<Option<(Naiv
 }
 
 pub fn run(ctx: &mut Ctx) {
-    ctx.ev.rule = "generated awards files (0–5 entries around the deposit date at gaps −3…+20 days, mixed-case symbols, another symbol, vesting / non-vesting / unknown / absent actions, 0–3 details with vest-specific and fallback fields, blank and '--' values, $ and comma spellings) × a Stock Plan Activity row through the real converter: the emitted BUY's date and price must be those of the entry for that symbol on the deposit date or the closest earlier date ≤ 7 days back (vest value over fallback price, last duplicate wins), an error naming symbol and date otherwise, also without an awards file; compared with the Lean model of get_fmv/parse_awards_json. Month and year ends are hit by deposit dates on the 1st–8th of a month. Non-trivial = a look-back of ≥ 1 day or ≥ 2 candidate entries in the window; distinct by awards text + deposit date.".into();
+    ctx.ev.rule = "(every third case also as an export with 2–3 deposits of the symbol 1–7 days apart, rows oldest-first, newest-first or shuffled: each deposit must get the entry its own look-back gives) generated awards files (0–5 entries around the deposit date at gaps −3…+20 days, mixed-case symbols, another symbol, vesting / non-vesting / unknown / absent actions, 0–3 details with vest-specific and fallback fields, blank and '--' values, $ and comma spellings) × a Stock Plan Activity row through the real converter: the emitted BUY's date and price must be those of the entry for that symbol on the deposit date or the closest earlier date ≤ 7 days back (vest value over fallback price, last duplicate wins), an error naming symbol and date otherwise, also without an awards file; compared with the Lean model of get_fmv/parse_awards_json. Month and year ends are hit by deposit dates on the 1st–8th of a month. Non-trivial = a look-back of ≥ 1 day or ≥ 2 candidate entries in the window; distinct by awards text + deposit date.".into();
     let mut r = Rng::new(ctx.seed ^ 0xC19);
     let n = ctx.n(1200, 60_000);
     for i in 0..n {
@@ -144,6 +144,43 @@ pub fn run(ctx: &mut Ctx) {
                 let imp = match &got { Ok((d, p)) => format!("ok {} #{}", ord(*d), Q::from_dec(*p).wire()), Err(msg) => if msg.contains("missing TransactionDetails") { "reject".into() } else { "none".into() } };
                 let same = imp == resp || { let a: Vec<&str> = imp.split(' ').collect(); let b: Vec<&str> = resp.split(' ').collect(); a.len() == 3 && b.len() == 3 && a[1] == b[1] && Q::parse(a[2]).zip(Q::parse(b[2])).map(|(x, y)| x.eq(&y)).unwrap_or(false) };
                 if !same { ctx.ev.violation("correspondence", format!("look-up: impl '{imp}' vs model '{resp}'"), case_text.clone()); }
+            }
+        }
+        // several deposits of one symbol a few days apart in one export, rows oldest-first or
+        // newest-first: every deposit is looked up on its own (no answer may depend on another row)
+        if i % 3 == 0 && !no_file {
+            let k = 2 + r.below(2) as usize;
+            let mut deps: Vec<(NaiveDate, u32)> = vec![(deposit, 10)];
+            for j in 1..k { let prev = deps[j - 1].0; deps.push((prev + Duration::days(r.range(1, 7)), 10 + j as u32)); }
+            let mut aw2: Vec<GAward> = gen_awards(&mut r, deposit, sym);
+            for (d, _) in deps.iter().skip(1) { aw2.extend(gen_awards(&mut r, *d, sym)); }
+            let aj2 = awards_json(&aw2, &mut r);
+            let mut rows: Vec<serde_json::Value> = deps.iter().map(|(d, q)| json!({"Date": us(*d), "Action": "Stock Plan Activity", "Symbol": if r.chance(1, 2) { sym.to_string() } else { recase(sym, &mut r) }, "Description": "RS", "Quantity": q.to_string(), "Price": "", "Fees & Comm": "", "Amount": ""})).collect();
+            let order = r.below(3);
+            if order == 1 { rows.reverse(); } else if order == 2 { r.shuffle(&mut rows); }
+            let tj2 = json!({"BrokerageTransactions": rows}).to_string();
+            let exps: Vec<Result<Option<(NaiveDate, Decimal)>, ()>> = deps.iter().map(|(d, _)| expected(&aw2, *d, sym)).collect();
+            if exps.iter().all(|e| matches!(e, Ok(Some(_)))) {
+                ctx.ev.evaluations += 1;
+                ctx.ev.count("multi-deposit-exports");
+                let case2 = format!("# property C19\n# export (rows in this order):\n{tj2}\n# awards file:\n{aj2}\n");
+                let input2 = SchwabInput { transactions_json: tj2.clone(), awards_json: Some(aj2.clone()) };
+                match std::panic::catch_unwind(|| SchwabConverter::new().convert(&input2)) {
+                    Err(p) => ctx.ev.violation("crash", crate::run_impl::panic_msg(p), case2.clone()),
+                    Ok(Err(e)) => ctx.ev.violation("oracle", format!("every deposit has an awards entry in its window but the conversion fails: {e}"), case2.clone()),
+                    Ok(Ok(out)) => {
+                        for ((d, q), e) in deps.iter().zip(&exps) {
+                            let Ok(Some((ed, ep))) = e else { continue };
+                            let line = out.cgt_content.lines().find(|l| { let w: Vec<&str> = l.split_whitespace().collect(); w.get(1) == Some(&"BUY") && w.get(3) == Some(&q.to_string().as_str()) }).unwrap_or("");
+                            let w: Vec<&str> = line.split_whitespace().collect();
+                            let got = (w.first().and_then(|x| NaiveDate::parse_from_str(x, "%Y-%m-%d").ok()), w.get(5).and_then(|p| p.parse::<Decimal>().ok()));
+                            if got != (Some(*ed), Some(*ep)) {
+                                ctx.ev.violation("oracle", format!("in an export with {k} deposits, the deposit of {q} {sym} on {d} is written as '{line}'; the awards entry to use is {ed} at {ep}"), case2.clone());
+                                break;
+                            }
+                        }
+                    }
+                }
             }
         }
         if i < 2 { ctx.ev.sample(json!({"deposit": deposit.to_string(), "symbol": sym, "awards": serde_json::from_str::<serde_json::Value>(&aj).unwrap_or_default()})); }
